@@ -247,7 +247,7 @@ func genRoundtrip(g *Rng, tier string) *Plan {
 	k := c07DefaultKnobs()
 	switch g.PickW(66, 28, 6) {
 	case 0:
-		k.SPKey = Pick(g, "rsa1", "rsa2", "rsa3", "rsa4", "rsasig", "rsaski") // rsasig: keyUsage digitalSignature only; the SP publishes it for encryption all the same
+		k.SPKey = Pick(g, "rsa1", "rsa2", "rsa3", "rsa4", "rsasig", "rsaski", "rsa4096", "rsa4096") // rsasig: keyUsage digitalSignature only; the SP publishes it for encryption all the same
 	case 1:
 		k.SPKey = "none"
 	case 2:
@@ -321,7 +321,7 @@ func genRoundtrip(g *Rng, tier string) *Plan {
 // ---------------------------------------------------------------- world
 
 func c07Key(name string) (KeyPair, bool) {
-	for _, k := range []KeyPair{rsaSig, rsaSKI} {
+	for _, k := range []KeyPair{rsaSig, rsaSKI, rsa4096} {
 		if k.Name == name {
 			return k, true
 		}
